@@ -565,6 +565,49 @@ example : ((∀ ch ∈ ['a'], ch ≠ '\n') ∧ PreExpand.matchDots ['a'] = none)
     obtain ⟨_, rfl⟩ := h
     simp
 
+open NemoVerif.TextLayout in
+open NemoVerif.NumberedLines (lstrip) in
+/-- Raw file content: an end-of-line comment appended (after ignored blanks) to an ordinary line `l` - outside docstrings (`hd`), first
+    non-blank character not a quote, not a `...` statement: the lines where the line-based pre-parsing expansion does not look at the line end;
+    the other lines are the region of the open finding `eol-comment-pre-expansion-v2` - does not change the token stream. -/
+theorem source_comment_eol (c : Cfg) (o : Oracle) (hnb : NoBlankStart o) (hnh : NoHashStart o) (preL postL : List TextLayout.Str)
+    (l cmt : TextLayout.Str) (gap : List Ws) (hg : ∀ w ∈ gap, c.ign w = true) (hc : ∀ ch ∈ cmt, ch ≠ '\n')
+    (hd : (PreExpand.runPre false preL).1 = false)
+    (hl : lstrip l ≠ []) (hq : (lstrip l).head? ≠ some '"') (hm : PreExpand.matchDots l = none)
+    (pre post : TextLayout.Str) (P : List Piece) (ty v : String)
+    (hpre : pre = unlines (PreExpand.runPre false preL).2 ++ l)
+    (hpost : post = unlines (PreExpand.run false postL))
+    (hE : segPre o false 0 pre (wsChars gap ++ ('#' :: cmt ++ '\n' :: post)) = .ok (P ++ [.tok ty v], false, 0))
+    (hO : segPre o false 0 pre ('\n' :: post) = .ok (P ++ [.tok ty v], false, 0)) :
+    source c o (preL ++ (l ++ (wsChars gap ++ '#' :: cmt)) :: postL) = source c o (preL ++ l :: postL) := by
+  have hx : wsChars gap ++ '#' :: cmt = [] ∨ ((wsChars gap ++ '#' :: cmt).head? ≠ some '.' ∧ wsChars gap ++ '#' :: cmt ≠ []) := by
+    right
+    cases gap with
+    | nil => simp [wsChars]
+    | cons w g => cases w <;> simp [wsChars, wsChar]
+  have s1 := step_plain l (wsChars gap ++ '#' :: cmt) hl hq hm hx
+  have s2 := step_plain l [] hl hq hm (Or.inl rfl)
+  rw [List.append_nil] at s2
+  unfold source PreExpand.preExpand
+  rw [PreExpand.run_append, PreExpand.run_append]
+  simp only [PreExpand.run, hd, s1, s2]
+  rw [joinNL_nl _ (by simp), joinNL_nl _ (by simp)]
+  simp only [unlines_append, unlines]
+  have := text_layout_comment_eol c o hnb hnh pre post cmt hc gap hg P ty v hE hO
+  rw [hpre, hpost] at this
+  simpa [List.append_assoc] using this
+
+
+open NemoVerif.TextLayout in
+/-- non-vacuity of `source_comment_eol`: file `a⏎a`, comment `·#c` appended to the first line (toy tokenizer). -/
+example : (PreExpand.runPre false ([] : List TextLayout.Str)).1 = false ∧ NumberedLines.lstrip ['a'] ≠ [] ∧ (NumberedLines.lstrip ['a']).head? ≠ some '"' ∧
+    PreExpand.matchDots ['a'] = none ∧
+    segPre toyOracle false 0 (unlines (PreExpand.runPre false ([] : List TextLayout.Str)).2 ++ ['a'])
+      (wsChars [.sp] ++ ('#' :: ['c'] ++ '\n' :: unlines (PreExpand.run false [['a']]))) = .ok ([] ++ [.tok "NAME" "a"], false, 0) ∧
+    segPre toyOracle false 0 (unlines (PreExpand.runPre false ([] : List TextLayout.Str)).2 ++ ['a'])
+      ('\n' :: unlines (PreExpand.run false [['a']])) = .ok ([] ++ [.tok "NAME" "a"], false, 0) := by
+  refine ⟨rfl, by decide, by decide, by decide, by rfl, by rfl⟩
+
 /-! ## Error wrapper -/
 
 /-- With the repaired formatter: whatever exception the parser raised (any class deriving from `Exception`, with
